@@ -870,6 +870,11 @@ class Summarizer:
                 if c.func.attr == 'update' and isinstance(a0, ast.DictComp):
                     self.expand_comp(recv, a0, st, s)
                     return [st]
+                if c.func.attr == 'update' and isinstance(a0, (ast.ListComp, ast.GeneratorExp, ast.SetComp)) \
+                        and not (isinstance(a0.elt, ast.Tuple) and len(a0.elt.elts) == 2):
+                    # S.update(x for ...)  ==  for ...: S.add(x)
+                    self.expand_comp(recv, ast.SetComp(elt=a0.elt, generators=a0.generators), st, s)
+                    return [st]
                 if c.func.attr == 'update' and isinstance(a0, (ast.ListComp, ast.GeneratorExp)) and isinstance(a0.elt, ast.Tuple) \
                         and len(a0.elt.elts) == 2:
                     self.expand_comp(recv, ast.DictComp(key=a0.elt.elts[0], value=a0.elt.elts[1], generators=a0.generators), st, s)
